@@ -6,7 +6,13 @@ use crate::Uint;
 use bytemuck::{Pod, Zeroable};
 
 // Implement Zeroable for all `Uint` types.
-unsafe impl<const BITS: usize, const LIMBS: usize> Zeroable for Uint<{ BITS }, { LIMBS }> {}
+unsafe impl<const BITS: usize, const LIMBS: usize> Zeroable for Uint<{ BITS }, { LIMBS }> {
+    // Going through `ZERO` rejects types with an incorrect `LIMBS` at compile time.
+    #[inline]
+    fn zeroed() -> Self {
+        Self::ZERO
+    }
+}
 
 // Implement the `Pod` trait for `Uint` types with a size that is a multiple of
 // 64, up to 1024. Note that implementors must have a size that is divisible by
